@@ -362,7 +362,9 @@ fn apply_calls<S: ConditionalStatement>(s: &mut S, calls: &[Call]) {
 /// the chain means what SQL makes of `m1 c2 m2 c3 m3 ..` with each member kept together: AND binds tighter
 /// than OR. Which members are joined with OR is a fixed function of the member.
 fn chain_joins_with_or(atom: usize, form: usize) -> bool {
-    (atom * 7 + form) % 5 == 0
+    // OR-shaped members are joined with OR half of the time (a member built from the connective it is
+    // chained with is the interesting case), the others one time in five
+    (matches!(form, 9 | 14) && atom % 2 == 1) || (atom * 7 + form) % 5 == 0
 }
 
 fn model_chain(calls: &[Call], row: &[Option<bool>; 4]) -> V3 {
